@@ -616,6 +616,27 @@ func GenTypes(t *rapid.T, o *Opts) *Spec {
 			o.class("feature:tagged_embedded_struct_next_to_a_union_field")
 		}
 	}
+	if o.EmbedPtrNextToUnion && o.Unions >= 1 && rapid.IntRange(0, 3).Draw(t, "embedPtrNextToUnion") == 0 {
+		// directed (Go-side properties): a struct with a union field that embeds a pointer to an exported struct;
+		// encoding/json promotes the fields of the pointed-to struct (and writes nothing for a nil pointer)
+		var us []*tinfo
+		for _, ti := range g.types {
+			if ti.cat == "union" && ti.pkg == root && len(g.spec.Unions()[root.Path][ti.d.Name].Members) > 0 {
+				us = append(us, ti)
+			}
+		}
+		if len(us) > 0 {
+			u := us[rapid.IntRange(0, len(us)-1).Draw(t, "epnuUnion")]
+			inner := &Decl{Kind: KStruct, Name: g.freshName(root, "epnuInner", true), Fields: []*Field{
+				{Name: "Zauthor", Type: Basic("string")}, {Name: "Zrev", Type: Basic("int"), Tag: `json:"rev"`}}}
+			ii := g.newDecl(root, root.Files[rapid.IntRange(0, 1).Draw(t, "epnuInnerFile")], inner, &tinfo{cat: "struct"})
+			outer := &Decl{Kind: KStruct, Name: g.freshName(root, "epnuOuter", true), Fields: []*Field{
+				{Name: inner.Name, Type: Ptr(g.refTo(root, ii)), Embedded: true},
+				{Name: "Ztitle", Type: Basic("string")}, {Name: "Zshape", Type: g.refTo(root, u)}}}
+			g.newDecl(root, root.Files[0], outer, &tinfo{cat: "struct", hasUnion: true})
+			o.class("feature:embedded_pointer_next_to_a_union_field")
+		}
+	}
 	if o.EmbedUnionIface && o.Unions >= 1 && rapid.IntRange(0, 3).Draw(t, "embedUnionIface") == 0 {
 		// directed (compile-only properties): a struct that embeds an exported union interface of its package; the method
 		// set of the interface is promoted, so the struct is itself a member of the union it embeds
